@@ -224,8 +224,10 @@ def canon(e, env):
             return '!VALID(%s)' % canon(e['ch'][0], env)
         if e['method'] == 'is_not_nat' and len(e['ch']) == 1:
             return 'VALID(%s)' % canon(e['ch'][0], env)
-        return '%s.%s(%s)' % (canon(e['ch'][0], env), e['method'],
-                              ', '.join(canon(x, env) for x in e['ch'][1:]))
+        args_ = [canon(x, env) for x in e['ch'][1:]]
+        if e['method'] == 'unwrap_or_else' and len(args_) == 1 and args_[0] in ('IsNone::none', '|| NULL', 'NULL'):
+            return '%s.unwrap_or(NULL)' % canon(e['ch'][0], env)
+        return '%s.%s(%s)' % (canon(e['ch'][0], env), e['method'], ', '.join(args_))
     if k == 'Call':
         c = e['ch'][0]
         if e.get('callee_res', '').startswith('Ctor') and \
@@ -577,7 +579,17 @@ def _paths(e, env=None, conds=frozenset(), effects=()):
                             nxt.append((c2, ef2, en2))
                 elif s['k'] == 'Let' and 'init' in s and s['pat'].get('k') == 'Binding' and \
                         peel(s['init']).get('k') in ('If', 'Match') and try_operand(peel(s['init'])) is None \
-                        and not _inlineable(s['pat'], canon(peel(s['init']), en), en):
+                        and _inlineable(s['pat'], canon(peel(s['init']), en), en):
+                    # an immutable conditional value: one path per branch, the value inlined
+                    for c2, leaf, ef2, en2 in _paths(peel(s['init']), en, cs, ef):
+                        if leaf.startswith('return ') or leaf in _TERMINAL:
+                            yield c2, leaf, ef2, en2
+                        else:
+                            en2 = dict(en2)
+                            en2[s['pat']['local']] = leaf
+                            nxt.append((c2, ef2, en2))
+                elif s['k'] == 'Let' and 'init' in s and s['pat'].get('k') == 'Binding' and \
+                        peel(s['init']).get('k') in ('If', 'Match') and try_operand(peel(s['init'])) is None:
                     # a conditional value that must stay named: one definition per branch
                     nm = _keep_name(en, s['pat']['local'])
                     if s['pat'].get('mut') and '__mutkept__' in en:
@@ -1268,6 +1280,10 @@ def holds(cond, binding):
     """Truth of a canonical condition at a sample point.  `binding` maps canonical sub-strings
     (terms or whole predicates) to python ints / bools; None when something else remains."""
     x = cond
+    m_ = re.fullmatch(r'(!?)(.+) is ((?:-?\d+)(?: \| -?\d+)*)', x)
+    if m_:
+        # integer literal patterns
+        x = '%s(%s)' % (m_.group(1), ' || '.join('(%s == %s)' % (m_.group(2), v_) for v_ in m_.group(3).split(' | ')))
     for k_ in sorted(binding, key=len, reverse=True):
         x = x.replace(k_, ' %s ' % repr(binding[k_]))
     x = x.replace('&&', ' and ').replace('||', ' or ')
